@@ -132,9 +132,31 @@ where
     if r.as_ptr() as usize != base || r.iter().map(|e| e.probe()).ne(want.iter().copied()) {
         return Err("ContentMismatch: native-array view");
     }
-    let back: [T; K] = a.into_array();
+    let mut back: [T; K] = a.into_array();
     if back.iter().map(|e| e.probe()).ne(want.iter().copied()) {
         return Err("ContentMismatch: into_array");
+    }
+    // mutable native-array views in both directions: write through one, read through the other
+    if K > 0 {
+        {
+            let g: &mut GA<T, N> = <&mut GA<T, N>>::from(&mut back);
+            g.as_mut_slice()[K - 1] = T::make(200);
+        }
+        if back[K - 1].probe() != T::make(200).probe() {
+            return Err("ContentMismatch: write through From<&mut [T;N]> not visible in the native array");
+        }
+        let mut ga: GA<T, N> = GA::from_array(back);
+        {
+            let m: &mut [T; K] = AsMut::<[T; K]>::as_mut(&mut ga);
+            m[0] = T::make(201);
+        }
+        if ga.as_slice()[0].probe() != T::make(201).probe() {
+            return Err("ContentMismatch: write through AsMut<[T;N]> not visible in the array");
+        }
+        let shared: &GA<T, N> = <&GA<T, N>>::from(AsRef::<[T; K]>::as_ref(&ga));
+        if shared.as_slice()[0].probe() != T::make(201).probe() || shared as *const _ as usize != &ga as *const _ as usize {
+            return Err("ContentMismatch: From<&[T;N]> over AsRef<[T;N]> is not the same storage");
+        }
     }
     Ok(())
 }
